@@ -76,6 +76,32 @@ func runSolver(ctx context.Context, sp solverSpec, file string, timeoutS, seed i
 
 // Discharge runs the portfolio on one obligation. First definitive answer (unsat/sat) wins.
 func (e *Engine) Discharge(o *Obligation, dir string, idx int, timeoutS int, seed int) {
+	e.discharge1(o, dir, idx, timeoutS, seed)
+	if (o.Status == "unsat" || o.Status == "trivial") || len(o.Parts) == 0 || o.Kind == "cover" {
+		return
+	}
+	// second formulation: prove the goal separately on every merged path
+	total := 0.0
+	solver := ""
+	for k, part := range o.Parts {
+		sub := &Obligation{Name: fmt.Sprintf("%s/%d", o.Name, k), Kind: o.Kind, Func: o.Func, Goal: part, NFacts: o.NFacts, Ctx: o.Ctx, Src: o.Src}
+		if part.IsTrue() {
+			continue
+		}
+		e.discharge1(sub, dir, idx*100+k+50000, timeoutS, seed)
+		total += sub.Time
+		if sub.Status != "unsat" {
+			return // keep the verdict (and model) of the unsplit attempt
+		}
+		solver = sub.Solver
+	}
+	o.Status = "unsat"
+	o.Solver = solver + " (per-path)"
+	o.Time += total
+	o.Model = ""
+}
+
+func (e *Engine) discharge1(o *Obligation, dir string, idx int, timeoutS int, seed int) {
 	if o.Status == "trivial" {
 		o.Solver = "simplifier"
 		return
@@ -89,8 +115,26 @@ func (e *Engine) Discharge(o *Obligation, dir string, idx int, timeoutS int, see
 	for _, in := range c.inputs {
 		gv = append(gv, in)
 	}
-	sc := e.ts.Script("(set-option :produce-models true)\n", nil, nil, nil, nil)
-	_ = sc
+	if os.Getenv("GOVC_DEBUG_MODEL") != "" {
+		seen := map[int]bool{}
+		var walk func(t *Term)
+		walk = func(t *Term) {
+			if seen[t.id] {
+				return
+			}
+			seen[t.id] = true
+			if t.kind == kVar && !t.sort.IsArr() {
+				gv = append(gv, t)
+			}
+			if t.kind == kUF && len(gv) < 400 {
+				gv = append(gv, t)
+			}
+			for _, a := range t.args {
+				walk(a)
+			}
+		}
+		walk(o.Goal)
+	}
 	body := e.ts.Script("", e.tc.Datatypes(), hyps, o.Goal, gv)
 	file := filepath.Join(dir, fmt.Sprintf("obl-%04d.smt2", idx))
 	write := func(sp solverSpec) string {
@@ -148,7 +192,11 @@ func (e *Engine) Discharge(o *Obligation, dir string, idx int, timeoutS int, see
 	if win.status == "sat" {
 		o.Model = win.output
 	}
-	o.Output = fmt.Sprintf("[%s %.2fs] %s", win.solver, win.secs, firstLines(win.output, 40))
+	n := 40
+	if os.Getenv("GOVC_DEBUG_MODEL") != "" {
+		n = 400
+	}
+	o.Output = fmt.Sprintf("[%s %.2fs] %s", win.solver, win.secs, firstLines(win.output, n))
 	o.SMTFile = file
 }
 
@@ -164,26 +212,40 @@ func firstLines(s string, n int) string {
 func relevantFacts(c *FnCtx, n int, goal *Term) []*Term {
 	facts, trigs := c.facts[:n], c.triggers[:n]
 	reach := map[int]bool{}
-	nthOf := map[int]bool{} // sequences some element of which is mentioned
-	var mark func(t *Term)
-	mark = func(t *Term) {
-		if reach[t.id] {
+	nthOf := map[int]bool{} // sequences some element of which is mentioned by the goal (or by a fact pulled in for the goal)
+	var mark func(t *Term, nth bool)
+	mark = func(t *Term, nth bool) {
+		if reach[t.id] && !(nth && t.kind == kApp && t.op == "seq.nth") {
 			return
 		}
 		reach[t.id] = true
+		if nth && t.kind == kApp && t.op == "seq.nth" {
+			nthOf[t.args[0].id] = true
+		}
+		for _, a := range t.args {
+			mark(a, nth)
+		}
+	}
+	var markNth func(t *Term, seen map[int]bool)
+	markNth = func(t *Term, seen map[int]bool) {
+		if seen[t.id] {
+			return
+		}
+		seen[t.id] = true
 		if t.kind == kApp && t.op == "seq.nth" {
 			nthOf[t.args[0].id] = true
 		}
 		for _, a := range t.args {
-			mark(a)
+			markNth(a, seen)
 		}
 	}
-	mark(goal)
+	markNth(goal, map[int]bool{})
+	mark(goal, false)
 	keep := make([]bool, len(facts))
 	for i, f := range facts {
 		if trigs[i] == nil {
 			keep[i] = true
-			mark(f)
+			mark(f, false)
 		}
 	}
 	for changed := true; changed; {
@@ -198,7 +260,10 @@ func relevantFacts(c *FnCtx, n int, goal *Term) []*Term {
 			}
 			if ok {
 				keep[i] = true
-				mark(f)
+				mark(f, false)
+				if c.trigNth[i] {
+					markNth(f, map[int]bool{})
+				}
 				changed = true
 			}
 		}
